@@ -132,3 +132,56 @@ pub fn k_c23_composition_columns_n1024_c8() {
     vreach!("C23.columns.n1024_c8.reach");
 }
 
+/// the other direction of `columns_enough`: whatever exemption count `set_num_transition_exemptions` ACCEPTS
+/// (it rejects by panicking; those paths end there and are not counted in this harness), the composition
+/// polynomial fits the constraint evaluation domain and the composition columns
+fn accepted_exemptions_fit(n: usize, cycle: Option<usize>) {
+    let base = vs::any_usize();
+    vs::assume(base >= 1 && base <= 8);
+    let degree = match cycle {
+        None => TransitionConstraintDegree::new(base),
+        Some(c) => TransitionConstraintDegree::with_cycles(base, alloc::vec![c]),
+    };
+    let lb = vs::any_u32();
+    vs::assume(lb >= 1 && lb <= 7);
+    let blowup = 1usize << lb;
+    vs::assume(blowup >= degree.min_blowup_factor());
+    let ctx = context_for(n, degree.clone(), blowup);
+    let e = vs::any_usize();
+    vs::assume(e >= 1 && e <= n);
+    let eval_degree = degree.get_evaluation_degree(n);
+    let ctx = ctx.set_num_transition_exemptions(e);
+    // reached only when the exemption count was accepted
+    let d = eval_degree - (n - e);
+    vcheck!("C23.exemptions.accepted_only_if_composition_fits_ce_domain", ctx.ce_domain_size() > d);
+    vcheck!("C23.exemptions.accepted_only_if_columns_hold_all_coefficients", ctx.num_constraint_composition_columns() * n >= d + 1
+        && ctx.num_constraint_composition_columns() * n <= ctx.ce_domain_size());
+}
+
+//# harness: fn=AirContext::set_num_transition_exemptions (accepted counts fit; trace length 8, no cycle); label=complete in base degree 1..=8, blowup 2..=128, exemption count 1..=n for trace length 8 (no cycle); tier=quick; props=C23; panics=ignore; replay=no; uses=accepted_exemptions_fit,context_for; timeout=900
+#[cfg_attr(kani, kani::proof)]
+#[cfg_attr(kani, kani::unwind(5))]
+#[cfg_attr(kani, kani::stub(alloc::fmt::format, vs::fake_format))]
+pub fn k_c23_accepted_exemptions_fit_n8() {
+    accepted_exemptions_fit(8, None);
+    vreach!("C23.exemptions.n8.reach");
+}
+
+//# harness: fn=AirContext::set_num_transition_exemptions (accepted counts fit; trace length 8, cycle 8); label=complete in base degree 1..=8, blowup 2..=128, exemption count 1..=n for trace length 8 (cycle 8); tier=quick; props=C23; panics=ignore; replay=no; uses=accepted_exemptions_fit,context_for; timeout=900
+#[cfg_attr(kani, kani::proof)]
+#[cfg_attr(kani, kani::unwind(5))]
+#[cfg_attr(kani, kani::stub(alloc::fmt::format, vs::fake_format))]
+pub fn k_c23_accepted_exemptions_fit_n8_c8() {
+    accepted_exemptions_fit(8, Some(8));
+    vreach!("C23.exemptions.n8_c8.reach");
+}
+
+//# harness: fn=AirContext::set_num_transition_exemptions (accepted counts fit; trace length 1024, cycle 2); label=complete in base degree 1..=8, blowup 2..=128, exemption count 1..=n for trace length 1024 (cycle 2); tier=quick; props=C23; panics=ignore; replay=no; uses=accepted_exemptions_fit,context_for; timeout=900
+#[cfg_attr(kani, kani::proof)]
+#[cfg_attr(kani, kani::unwind(5))]
+#[cfg_attr(kani, kani::stub(alloc::fmt::format, vs::fake_format))]
+pub fn k_c23_accepted_exemptions_fit_n1024_c2() {
+    accepted_exemptions_fit(1024, Some(2));
+    vreach!("C23.exemptions.n1024_c2.reach");
+}
+
